@@ -1222,6 +1222,91 @@ pub fn c18_scenario(name: &str, n: usize) -> Result<String, String> {
             }
             Ok(format!("nested trees of {} keys each, teardown {}", n, teardown))
         }
+        // teardown while a panic is unwinding (the tree or its consuming iterator is a live local of the panicking code),
+        // and a comparator that panics on the very first comparison of a lookup (caught): no stack overflow, and after the
+        // caught comparator panic the tree is still intact
+        "unwind" => {
+            let what = parts.get(2).cloned().unwrap_or("iter");
+            let n32 = n as u32;
+            match what {
+                "iter" => {
+                    let t = build(style);
+                    let r = std::panic::catch_unwind(std::panic::AssertUnwindSafe(move || {
+                        let mut seen = 0u32;
+                        for (k, _) in t {
+                            seen += 1;
+                            if seen == 3 {
+                                panic!("consumer code fails at key {}", k);
+                            }
+                        }
+                    }));
+                    if r.is_ok() {
+                        return Err("the consumer panic was not propagated".into());
+                    }
+                    Ok("partially consumed iterator dropped while unwinding".into())
+                }
+                "owner" => {
+                    let t = build(style);
+                    let r = std::panic::catch_unwind(std::panic::AssertUnwindSafe(move || {
+                        let len = t.len();
+                        if len > 0 {
+                            panic!("owner of a tree of {} keys fails", len);
+                        }
+                        drop(t);
+                    }));
+                    if r.is_ok() {
+                        return Err("the owner panic was not propagated".into());
+                    }
+                    Ok("tree dropped while unwinding".into())
+                }
+                "set-owner-thread" => {
+                    let keys = order(style, n);
+                    let h = std::thread::Builder::new()
+                        .stack_size(2 * 1024 * 1024)
+                        .spawn(move || {
+                            let mut s = SplaySet::new(|a: &u32, b: &u32| a.cmp(b));
+                            for k in keys {
+                                s.insert(k);
+                            }
+                            assert!(s.len() == 0, "worker owning a deep set fails an assertion");
+                        })
+                        .map_err(|e| e.to_string())?;
+                    if h.join().is_ok() {
+                        return Err("the worker did not panic".into());
+                    }
+                    Ok("deep set dropped by a panicking worker thread".into())
+                }
+                "cmp-first" => {
+                    let armed = std::rc::Rc::new(std::cell::Cell::new(false));
+                    let a2 = armed.clone();
+                    let mut t = SplayTree::new(move |x: &u32, y: &u32| {
+                        if a2.get() {
+                            a2.set(false);
+                            panic!("comparator cannot order this probe");
+                        }
+                        x.cmp(y)
+                    });
+                    for k in order(style, n) {
+                        t.insert(k, k);
+                    }
+                    for probe in [0u32, n32 / 2, n32 - 1] {
+                        armed.set(true);
+                        let r = std::panic::catch_unwind(std::panic::AssertUnwindSafe(|| t.get(&probe).cloned()));
+                        if r.is_ok() {
+                            return Err("the comparator panic was not propagated".into());
+                        }
+                        armed.set(false);
+                        // the panic happened before anything was restructured: the tree must be intact
+                        if t.len() != n || t.get(&probe).cloned() != Some(probe) || t.min().cloned() != Some(0) || t.max().cloned() != Some(n32 - 1) {
+                            return Err(format!("after a caught comparator panic (first comparison of a lookup of {}) the tree is no longer intact: len {} min {:?} max {:?}", probe, t.len(), t.min(), t.max()));
+                        }
+                    }
+                    drop(t);
+                    Ok("comparator panic on the first comparison of a lookup".into())
+                }
+                other => Err(format!("unknown unwind scenario {}", other)),
+            }
+        }
         "iter-partial-drop" => {
             let t = build(style);
             let mut it = t.into_iter();
@@ -1295,6 +1380,9 @@ pub fn c18_shape_scenarios() -> Vec<String> {
         }
         for teardown in ["drop", "clear", "iter-partial", "replace", "thread-local"] {
             v.push(format!("nested:{}:{}", style, teardown));
+        }
+        for what in ["iter", "owner", "set-owner-thread", "cmp-first"] {
+            v.push(format!("unwind:{}:{}", style, what));
         }
     }
     for style in ["asc", "desc", "zigzag", "random"] {
